@@ -315,7 +315,7 @@ func genBig(kind string) func(t *rapid.T) Case {
 		n := len(script.BigIntDomain.Elems)
 		c := Case{Cfg: script.GenCfg(t, kind), Big: true}
 		if kind == "circularbuffer" {
-			c.Cfg.Cap = []int{9, 16, 31, 64, 100}[rapid.IntRange(0, 4).Draw(t, "bigcap")]
+			c.Cfg.Cap = []int{9, 16, 31, 64, 100, 300, 2048}[rapid.IntRange(0, 6).Draw(t, "bigcap")]
 		}
 		if kind == "btree" {
 			c.Cfg.Order = []int{3, 4, 7, 16, 33}[rapid.IntRange(0, 4).Draw(t, "bigorder")]
@@ -326,6 +326,13 @@ func genBig(kind string) func(t *rapid.T) Case {
 			c.Init = rapid.SliceOfN(rapid.IntRange(0, n-1), 0, 90).Draw(t, "init")
 			if rapid.Bool().Draw(t, "long-init") {
 				c.Init = rapid.SliceOfN(rapid.IntRange(0, n-1), 32, 140).Draw(t, "init-long")
+			}
+			if rapid.IntRange(0, 99).Draw(t, "init-ladder") == 61 {
+				k := []int{513, 1025, 4097}[rapid.IntRange(0, 2).Draw(t, "init-ladder-size")]
+				c.Init = make([]int, k)
+				for i := range c.Init {
+					c.Init[i] = (i * 7) % n
+				}
 			}
 		}
 		c.Ops = script.GenOpsBig(t, kind, n)
@@ -344,6 +351,15 @@ func genBig(kind string) func(t *rapid.T) Case {
 			c.Vals = rapid.SliceOfN(rapid.IntRange(0, n-1), 0, 90).Draw(t, "vals")
 			if rapid.Bool().Draw(t, "long-vals") {
 				c.Vals = rapid.SliceOfN(rapid.IntRange(0, n-1), 32, 200).Draw(t, "vals-long")
+			}
+			if kind != "binaryheap" && kind != "priorityqueue" && rapid.IntRange(0, 59).Draw(t, "ladder") == 37 {
+				// one call past the sizes at which an implementation may switch strategy
+				k := []int{513, 1025, 2049, 4097}[rapid.IntRange(0, 3).Draw(t, "ladder-size")]
+				a := rapid.IntRange(0, n-1).Draw(t, "ladder-a")
+				c.Vals = make([]int, k)
+				for i := range c.Vals {
+					c.Vals[i] = (a + i*5) % n
+				}
 			}
 		}
 		c.Muts = script.GenOps(t, kind, n, 30)
